@@ -13,7 +13,8 @@ TECHNIQUE = "exhaustive enumeration of request sets (every ordered sub-list of e
 RULE = (
     "one election with a complete feed (24 reporting units, outstanding units in several groups, passthrough units present) per estimator; every "
     "ordered non-empty sub-list of estimands {turnout, dem} (4), of interval levels {0.7, 0.9} (4) and of aggregate levels {postal_code, county_fips, "
-    "county_classification} (15), with and without the unit table: 480 runs each for nonparametric and gaussian, 120 for bootstrap (margin only); "
+    "county_classification} (15), with and without the unit table: 480 runs each for nonparametric and gaussian, 120 for bootstrap (margin only); every ordered sub-list of the close "
+    "interval levels {0.9, 0.99, 0.995} for gaussian and bootstrap; "
     "a district-office election with levels {postal_code, district, county_fips}. Oracle: each cell has exactly one value over all runs that report it "
     "(compared on the repr of the double), and every table has exactly the key/category columns of the singleton request. non-trivial = the run "
     "requests more than one estimand, level or interval level"
@@ -47,6 +48,15 @@ def cases(tier, seed):
         for lv in levels:
             for unit in (True, False):
                 out.append({"pm": "bootstrap", "office": "G", "estimands": ["margin"], "alphas": alphas, "aggregates": lv + (["unit"] if unit else []), "seed": seed})
+    # interval levels that are close together (equal when rounded to two decimals), singly and together, both orders
+    for pm in ("gaussian", "bootstrap"):
+        for alphas in _sublists([0.9, 0.99, 0.995]):
+            for lv in (["postal_code"], ["postal_code", "county_classification"], ["county_fips", "postal_code"]):
+                out.append({"pm": pm, "office": "G", "estimands": ["margin"] if pm == "bootstrap" else ["turnout"], "alphas": alphas, "aggregates": lv + ["unit"], "seed": seed})
+    # ... on an election built so that the two levels provably give different quantile fits: 200 equal-weight training
+    # units put a breakpoint of the weighted quantile (k/200) between the fitted quantiles 0.008 and 0.012
+    for alphas in _sublists([0.976, 0.984]):
+        out.append({"pm": "gaussian", "office": "G", "election": "equal286", "estimands": ["turnout"], "alphas": alphas, "aggregates": ["postal_code", "county_fips", "unit"], "seed": seed})
     hlevels = _sublists(["postal_code", "district", "county_fips"])
     for pm in ("nonparametric", "bootstrap") if tier == "quick" else ("nonparametric", "gaussian", "bootstrap"):
         for est in (_sublists(["turnout", "dem"]) if pm != "bootstrap" else [["margin"]]):
@@ -59,7 +69,23 @@ def describe(case):
     return case
 
 
+def _election_equal(case):
+    import random
+
+    rng = random.Random(case["seed"] + 286)
+    units = []
+    for i in range(286):
+        t = 1000
+        r = int(t * (0.7 + 0.6 * rng.random()))
+        units.append(E.make_unit(f"AAc{i % 3}_e{i:03d}", "AA", f"AAc{i % 3}", "r", None, (450, 500, t), (r // 2, r // 3, r), 100.0, 0.0))
+    for j in range(6):
+        units.append(E.make_unit(f"AAc{j % 3}_o{j}", "AA", f"AAc{j % 3}", "r", None, (450, 500, 1000), (0, 0, 0), 0.0, 0.0))
+    return units
+
+
 def _election(case):
+    if case.get("election") == "equal286":
+        return _election_equal(case)
     office = case["office"]
     pm = case["pm"]
     w = "twoparty" if pm == "bootstrap" else "turnout"
@@ -79,7 +105,7 @@ def evaluate(case):
     cov = Counter()
     units = _election(case)
     pm = case["pm"]
-    feats = ["baseline_normalized_margin"] if pm == "bootstrap" else [E.FEATURE]
+    feats = ["baseline_normalized_margin"] if pm == "bootstrap" else ([] if case.get("election") else [E.FEATURE])
     mp = {"B": 10, "lambda_": 1.0} if pm == "bootstrap" else {}
     cfg = E.make_cfg(office=case["office"], pi_method=pm, estimands=case["estimands"], alphas=case["alphas"], aggregates=case["aggregates"], features=feats, model_parameters=mp)
     res = E.run_estimates(units, cfg)
@@ -109,8 +135,8 @@ def post(cases, results, tier, seed):
     viols = []
     groups = defaultdict(list)
     for i, c in enumerate(cases):
-        groups[(c["pm"], c["office"])].append(i)
-    for (pm, office), idxs in groups.items():
+        groups[(c["pm"], c["office"], c.get("election", ""))].append(i)
+    for (pm, office, _tag), idxs in groups.items():
         values = defaultdict(lambda: defaultdict(list))
         keycols = defaultdict(lambda: defaultdict(list))
         for i in idxs:
